@@ -385,6 +385,36 @@ def c13_grid(job, acc):
                     acc.violation("C13", "Project.dateToIdx-differs", dict(res=res, off=off, k=k, cy=a, py=b), [], None)
             acc.sig(("C13", "conv", res, off))
             acc.count("nontrivial")
+    # far-away instants: years into the horizon, where a 32-bit float no longer holds whole seconds (seeded change C13-b)
+    far = [(60, 997), (300, 1009), (900, 991), (1800, 983), (3600, 977)]
+    for fi, (res, step) in enumerate(far):
+        if fi % W != w:
+            continue
+        start = datetime(2025, 1, 1)
+        fp = FakeProject(start, res)
+        P = m["pm"].Project
+        top = 3_000_000 if tier == "thorough" else 1_200_000
+        for k in range(0, top, step):
+            for extra in (0, 1, res - 1):
+                d = start + timedelta(seconds=k * res + extra)
+                a, b = call("cy", P.dateToIdx, fp, d), call("py", P.dateToIdx, fp, d)
+                n += 1
+                if a != b:
+                    acc.violation("C13", "Project.dateToIdx-differs", dict(res=res, slot=k, extra_s=extra, cy=a, py=b), [], None)
+                    break
+        sb = m["sb"].Scoreboard(start, start + timedelta(seconds=res * 120_000), res)
+        for k in range(0, 120_000, 7):
+            d = start + timedelta(seconds=k * res + (k % 3))
+            a, b = call("cy", sb.dateToIdx, d, False), call("py", sb.dateToIdx, d, False)
+            n += 1
+            if a != b:
+                acc.violation("C13", "Scoreboard.dateToIdx-differs", dict(res=res, slot=k, cy=a, py=b), [], None)
+            a, b = call("cy", sb.idxToDate, k, False), call("py", sb.idxToDate, k, False)
+            n += 1
+            if a != b:
+                acc.violation("C13", "Scoreboard.idxToDate-differs", dict(res=res, slot=k, cy=a, py=b), [], None)
+        acc.sig(("C13", "far", res))
+        acc.count("nontrivial")
     # large indices (int32 range of idx * granularity)
     if w == 0:
         fp = FakeProject(datetime(2025, 1, 1), 3600)
